@@ -8,7 +8,7 @@
 namespace ps {
 
 typedef std::vector<uint8_t> Bytes;
-static const size_t MSIZE = 256;
+static const size_t MSIZE = (1u << 17) + 8192;   // large enough for data portions beyond 2^16 and 2^17 octets
 
 // ---- the medium (the library's callbacks carry no context pointer)
 struct Access { bool write; uint32_t addr; size_t n; };
@@ -20,7 +20,7 @@ struct Medium {
     size_t calls = 0;                  // calls with n > 0
     // single fault
     long fault_at = -1;                // index (among calls with n > 0) of the faulty call
-    int fault_kind = 0;                // 0 fails: returns 0, nothing transferred; 1 short: transfers n-1 (>=0) and says so; 2 short: transfers 1 (if n > 1)
+    int fault_kind = 0;                // 0 fails: returns 0; 1 short: n-1; 2 short: 1; 3 short by 2^16 (or n/2); 4 short by 2^8 (or n/3)
     bool fault_hit = false;
     // crash: number of octets the medium still accepts; -1 = unlimited
     long crash_budget = -1;
@@ -28,7 +28,8 @@ struct Medium {
     jmp_buf crash_jb;
     size_t octets_written = 0;
     std::vector<size_t> write_boundaries;   // cumulative octet counts after each complete write
-    void reset_pattern() { for (size_t i = 0; i < MSIZE; i++) mem[i] = (uint8_t)(0x30 + i * 7); }
+    size_t dirty = MSIZE;              // highest index that may differ from the pattern
+    void reset_pattern(size_t upto = MSIZE) { size_t n = std::max(upto, dirty); if (n > MSIZE) n = MSIZE; for (size_t i = 0; i < n; i++) mem[i] = (uint8_t)(0x30 + i * 7); dirty = upto; }
     void clear_run() { log.clear(); outside = false; calls = 0; fault_at = -1; fault_hit = false; crash_budget = -1; crashed = false; octets_written = 0; write_boundaries.clear(); }
 };
 inline Medium &M() { static Medium m; return m; }
@@ -40,9 +41,13 @@ inline size_t faulty(size_t n, bool &hit) {
     size_t idx = m.calls++;
     if (m.fault_at >= 0 && (long)idx == m.fault_at) {
         hit = true; m.fault_hit = true;
-        if (m.fault_kind == 0) return 0;
-        if (m.fault_kind == 1) return n - 1;
-        return n > 1 ? 1 : 0;
+        switch (m.fault_kind) {
+        case 0: return 0;
+        case 1: return n - 1;
+        case 2: return n > 1 ? 1 : 0;
+        case 3: return n > 65536 ? n - 65536 : n / 2;     // short by exactly 2^16 (a count compared in 16 bits would call this complete)
+        default: return n > 256 ? n - 256 : n / 3;
+        }
     }
     return n;
 }
@@ -90,7 +95,7 @@ inline std::string ser(const Config &c) { return vp::fmt("cfg %zu %u %d %ld %d",
 inline bool parse_cfg(const std::vector<std::string> &w, Config &c) {
     if (w.size() < 6 || w[0] != "cfg") return false;
     c.size = strtoull(w[1].c_str(), 0, 10); c.place = (uint32_t)strtoul(w[2].c_str(), 0, 10); c.cs = atoi(w[3].c_str()); c.aux = atol(w[4].c_str()); c.order = atoi(w[5].c_str());
-    return c.size >= 1 && c.place + 4 + c.size <= MSIZE && c.cs >= 0 && c.cs <= 2;
+    return c.size >= 1 && (uint64_t)c.place + 4 + c.size <= MSIZE && c.cs >= 0 && c.cs <= 2;
 }
 
 // an instance over the global medium; the aux buffer is an exact-size heap block
